@@ -172,11 +172,11 @@ public:
     } else if (tool == "xrun") {
       if (r.chance(1, 6)) parts.push_back("-t");
       parts.push_back(srcName);
-      if (r.chance(1, 8)) { parts.push_back("--max-cycles"); parts.push_back(std::to_string(1 + r.below(2000))); }
+      if (r.chance(1, 5)) { parts.push_back("--max-cycles"); parts.push_back(r.chance(2, 3) ? "@REL" + std::to_string((int)r.range(-2, 2)) : std::to_string(1 + r.below(2000))); }
     } else {   // hexsim: first build the binary with the matching tool (a chained invocation)
       inv["build_with"] = wantX ? "xcmp" : "hexasm";
       if (r.chance(1, 6)) parts.push_back("-t");
-      if (r.chance(1, 8)) { parts.push_back("--max-cycles"); parts.push_back(std::to_string(1 + r.below(2000))); }
+      if (r.chance(1, 4)) { parts.push_back("--max-cycles"); parts.push_back(r.chance(2, 3) ? "@REL" + std::to_string((int)r.range(-2, 2)) : std::to_string(1 + r.below(2000))); }
       parts.push_back("prog.bin");
     }
     for (auto &p : parts) argv.push(p);
@@ -360,7 +360,7 @@ public:
   }
 
   // hexref's verdict on a binary file + input.
-  bool isaOutcome(const std::string &file, const std::string &input, uint64_t budget, uint32_t &exitValue, std::string &out, size_t &consumed) {
+  bool isaOutcome(const std::string &file, const std::string &input, uint64_t budget, uint32_t &exitValue, std::string &out, size_t &consumed, uint64_t *stepsOut = nullptr) {
     if (file.size() < 8) return false;
     uint32_t words = 0; std::memcpy(&words, file.data(), 4);
     size_t bytes = (size_t)words * 4;
@@ -373,6 +373,7 @@ public:
     m.loadImage(image);
     for (uint32_t a = 0; a < (image.size() + 3) / 4 && a < W; a++) dirty.push_back(a);
     uint32_t hi[3] = {0, 0, 0};      // words 200000..200002, which hexsim does not have
+    const uint64_t skipped = 0;      // the tolerated store is one loop iteration like any instruction
     for (uint64_t s = 0; s < budget; s++) {
       hexref::Domain d = m.classifyNext(false, false);
       if (d != hexref::D_OK) {
@@ -380,13 +381,16 @@ public:
         if (d != hexref::D_DATA_OOB) return false;
         uint8_t inst = m.byteAt(m.pc);
         uint32_t addr = m.breg + (m.oreg | (inst & 15));
-        if ((inst >> 4) == 8 && addr >= W && addr <= W + 2) { hi[addr - W] = m.areg; m.pc++; m.oreg = 0; continue; }   // the store, kept aside
-        if (inst == 0xD3 && m.oreg == 0 && m.areg == 0 && m.mem[1] + 2 >= W && m.mem[1] + 2 <= W + 2) { exitValue = hi[m.mem[1] + 2 - W]; out = rio.out; consumed = rio.inPos; return !rio.missingFileReads; }
+        // Only the stub itself: "STAI 2; LDAC 0; OPR SVC".  Any other store up there (an array indexed
+        // past its end, say) corrupts hexsim's own object, and what follows is undefined.
+        bool stub = (m.pc + 2) < W * 4 && m.byteAt(m.pc + 1) == 0x30 && m.byteAt(m.pc + 2) == 0xD3;
+        if ((inst >> 4) == 8 && addr >= W && addr <= W + 2 && stub) { hi[addr - W] = m.areg; m.pc++; m.oreg = 0; continue; }   // the store, kept aside
+        if (inst == 0xD3 && m.oreg == 0 && m.areg == 0 && m.mem[1] + 2 >= W && m.mem[1] + 2 <= W + 2) { exitValue = hi[m.mem[1] + 2 - W]; out = rio.out; consumed = rio.inPos; if (stepsOut) *stepsOut = s + 1 + skipped; return !rio.missingFileReads; }
         return false;
       }
       m.step();
       if (m.last.wrote) dirty.push_back(m.last.waddr);
-      if (m.last.exited) { exitValue = m.exitValue; out = rio.out; consumed = rio.inPos; return !rio.missingFileReads; }
+      if (m.last.exited) { exitValue = m.exitValue; out = rio.out; consumed = rio.inPos; if (stepsOut) *stepsOut = s + 1 + skipped; return !rio.missingFileReads; }
     }
     return false;
   }
@@ -446,13 +450,16 @@ public:
       if (!lr.usable) { o.note = "skipped:library_crashes_on_source"; o.count("probe.library_crashes_on_source"); return; }
       if (!listing.empty()) { bool usable = true; listingOk = libraryListingOk(isXTool, listing, srcText, usable); if (!usable) { o.note = "skipped:library_crashes_on_source"; return; } }
     }
+    uint64_t isaSteps = 0; uint32_t isaExit = 0; bool isaKnown = false;
     if (tool == "xrun" && inputPresent && lr.accepted) {
       // Only programs the ISA model sees exit inside the budget are run (the watchdog is wall-clock,
       // which must never decide an outcome); with -t the budget is small because every traced
       // instruction is a line of output.
       bool traced = std::find(args.begin(), args.end(), "-t") != args.end() || std::find(args.begin(), args.end(), "--trace") != args.end();
-      uint32_t ev = 0; std::string eo; size_t ec = 0;
-      if (!isaOutcome(lr.bytes, input, traced ? 3000 : 200000, ev, eo, ec)) { o.note = "skipped:program_outside_domain_or_budget"; return; }
+      std::string eo; size_t ec = 0;
+      if (!isaOutcome(lr.bytes, input, traced ? 3000 : 200000, isaExit, eo, ec, &isaSteps)) { o.note = "skipped:program_outside_domain_or_budget"; return; }
+      isaKnown = true;
+      resolveRelativeLimit(args, isaSteps);
     }
     std::string effOut = tool == "xrun" ? "a.bin" : (outName.empty() ? "a.out" : outName);
     // Open failures are injected for xcmp and hexasm only: xrun would go on to load a binary that
@@ -488,7 +495,20 @@ public:
       return;
     }
 
-    if (tool == "xrun") { judgeXrun(r, args, fileArg, input, srcText, inputPresent, lr, o); return; }
+    if (tool == "xrun") {
+      judgeXrun(r, args, fileArg, input, srcText, inputPresent, lr, o);
+      // Besides behaving like the pair, the status is the program's exit value whenever the EXIT call
+      // is executed inside the cycle budget (cycles <= N runs N+1 instructions).
+      if (!o.violated && isaKnown && r.t.kind != sim::Trapped::CRASHED) {
+        uint64_t k = limitOf(args);
+        if (k == 0 || isaSteps <= k + 1) {
+          if (r.status() != (int)(isaExit & 0xFF)) o.violate("contract_status", "xrun exits " + std::to_string(r.status()) + ", the program's exit value is " + std::to_string((int32_t)isaExit) + (k ? " (EXIT is instruction " + std::to_string(isaSteps) + " of the " + std::to_string(k + 1) + " that --max-cycles " + std::to_string(k) + " allows)" : ""), "contract_status:xrun:exit_value");
+          else o.count("probe.xrun_status_checked");
+          if (k && isaSteps == k + 1) o.count("probe.exit_on_last_permitted_instruction");
+        }
+      }
+      return;
+    }
 
     // xcmp / hexasm emitting a binary.
     if (inputPresent && lr.accepted) {
@@ -521,6 +541,20 @@ public:
       if (!by.empty()) { o.violate("contract_file", tool + ": " + by + " although the source was rejected", "contract_file:" + tool + ":bystander_changed"); return; }
       for (auto &kv : r.after) if (!r.before.count(kv.first) && kv.first != effOut) o.count("recorded.new_unrelated_file_on_error");
     }
+  }
+
+  static uint64_t limitOf(const std::vector<std::string> &args) {
+    for (size_t k = 0; k + 1 < args.size(); k++) if (args[k] == "--max-cycles") return std::strtoull(args[k + 1].c_str(), nullptr, 10);
+    return 0;
+  }
+  // "--max-cycles @REL<r>" means: r instructions off the point where the limit just lets the EXIT in.
+  static void resolveRelativeLimit(std::vector<std::string> &args, uint64_t steps) {
+    for (size_t k = 0; k + 1 < args.size(); k++)
+      if (args[k] == "--max-cycles" && args[k + 1].compare(0, 4, "@REL") == 0) {
+        long rel = std::strtol(args[k + 1].c_str() + 4, nullptr, 10);
+        long v = (long)steps - 1 + rel;
+        args[k + 1] = std::to_string(v < 1 ? 1 : v);
+      }
   }
 
   // xrun src == xcmp src -o f ; hexsim f
@@ -571,14 +605,18 @@ public:
     for (size_t k = 0; k < args.size(); k++) if (args[k] == "--max-cycles" && k + 1 < args.size()) { limited = true; maxCycles = std::strtoull(args[k + 1].c_str(), nullptr, 10); }
     uint32_t exitValue = 0; std::string out; size_t consumed = 0;
     bool traced = std::find(args.begin(), args.end(), "-t") != args.end();
-    bool known = isaOutcome(lr.bytes, input, traced ? 3000 : 200000, exitValue, out, consumed);
+    uint64_t steps = 0;
+    bool known = isaOutcome(lr.bytes, input, traced ? 3000 : 200000, exitValue, out, consumed, &steps);
     if (!known) { o.note = "skipped:program_outside_domain_or_budget"; return; }
+    resolveRelativeLimit(args, steps);
+    maxCycles = limitOf(args);
     Inv r = invoke("hexsim", args, input);
     o.nontrivial = true;
     o.simInstr = 1;
     o.stateKeys.push_back(std::string("c14 hexsim ") + (limited ? "limited" : "unlimited") + " exit=" + std::to_string(exitValue & 0xFF));
     if (r.t.kind == sim::Trapped::CRASHED) { o.violate("crashed", "hexsim " + r.t.str(), "crashed:hexsim"); return; }
-    if (limited) { (void)maxCycles; o.count("probe.hexsim_limited_not_judged"); return; }    // a cut run's status is C12's subject
+    if (limited && steps > maxCycles + 1) { o.count("probe.hexsim_cut_before_exit_not_judged"); return; }    // a cut run's status is C12's subject
+    if (limited && steps == maxCycles + 1) o.count("probe.exit_on_last_permitted_instruction");
     if (r.status() != (int)(exitValue & 0xFF)) o.violate("contract_status", "hexsim exits " + std::to_string(r.status()) + ", the program's exit value is " + std::to_string((int32_t)exitValue), "contract_status:hexsim:exit_value");
     else o.count("probe.hexsim_status_checked");
   }
